@@ -436,6 +436,9 @@ def dropKey (k : String) (j : Json) : Json :=
   | .obj kvs => Json.mkObj (kvs.toList.filter fun (k', _) => k' != k)
   | j => j
 
+/-- exponent field not all ones -/
+def finiteBits (x : Nat) : Bool := (x / 2 ^ 52) % 2048 != 2047
+
 def hIoSolver : Handler := fun j => do
   let i ← fld j "in"
   let o ← fld j "out"
@@ -445,7 +448,7 @@ def hIoSolver : Handler := fun j => do
   let cls := (fam.splitOn ":").headD "" ++ (if src.modules.isEmpty then "" else " modular") ++
     (if (fam.splitOn "+").contains "floats" then " floats" else "")
   if !(isNull o "writeErr") then
-    let ok := !modelWritable C src
+    let ok := !modelWritable C finiteBits src
     return { corr := ok, spec := true, nontrivial := false, cls := cls ++ " writerRefuses",
              detail := if ok then "" else "Go WriteModel failed, model writer succeeds" }
   let wf := WFmodel C src
